@@ -263,6 +263,24 @@ example : IsSemi 14 [5, 10] 2 (0, 7, 1) ∧ IsSemi 14 [5, 10] 2 (3, 14, 2) ∧
     (∀ s ∈ [5, 10], (0:Int) ≤ s ∧ s ≤ 14) ∧ ((sortDedup [5, 10]).length : Int) ≠ 14 + 1 ∧
     (0, 7, 1) ∈ buildSpans 14 [5, 10] 2 none none true := by decide
 
+/-- reading of the property text: the specification `IsSemi` says exactly "the span shares its start (or its
+end) with an enzymatic span `p` that contains it", the value being the number of cleavage points strictly inside -/
+theorem isSemi_iff_shares_end_with_enzymatic (n : Int) (S : List Int) (mc : Nat) (x : Span) :
+    IsSemi n S mc x ↔
+      x.1 < x.2.1 ∧ x.2.2 = (inside (plus n S) x.1 x.2.1 : Int) ∧
+        ∃ p, IsEnz n S mc p ∧ ((p.1 = x.1 ∧ x.2.1 ≤ p.2.1) ∨ (p.2.1 = x.2.1 ∧ p.1 ≤ x.1)) := by
+  obtain ⟨s, e, v⟩ := x
+  simp only [IsSemi, IsEnz]
+  constructor
+  · rintro ⟨hse, hv, ⟨hs, e', he', hee', hmc⟩ | ⟨he, s', hs', hss', hmc⟩⟩
+    · exact ⟨hse, hv, (s, e', (inside (plus n S) s e' : Int)), ⟨hs, he', by simp only; omega, rfl, hmc⟩, Or.inl ⟨rfl, hee'⟩⟩
+    · exact ⟨hse, hv, (s', e, (inside (plus n S) s' e : Int)), ⟨hs', he, by simp only; omega, rfl, hmc⟩, Or.inr ⟨rfl, hss'⟩⟩
+  · rintro ⟨hse, hv, ⟨ps, pe, pv⟩, ⟨hps, hpe, _, _, hmc⟩, ⟨h1, h2⟩ | ⟨h1, h2⟩⟩
+    · simp only at h1 h2 hps hpe hmc; subst h1
+      exact ⟨hse, hv, Or.inl ⟨hps, pe, hpe, h2, hmc⟩⟩
+    · simp only at h1 h2 hps hpe hmc; subst h1
+      exact ⟨hse, hv, Or.inr ⟨hpe, ps, hps, h2, hmc⟩⟩
+
 /-- C06, obligation 1: `build_spans` returns exactly the specified set — non-specific, enzymatic and
 semi-specific case together. -/
 theorem mem_buildSpans (n : Int) (sites : List Int) (mc : Nat) (lo hi : Option Int) (semi : Bool)
